@@ -1,7 +1,128 @@
-//! C10 (to be filled in)
+//! C10 — permissions, timestamps, xattrs and ownership are preserved as requested
+
 use super::*;
-pub fn run(_ctx: &Ctx) -> Report {
-    let mut r = Report::new("model_checking", "not implemented");
-    r.machinery_errors.push("C10 not implemented yet".into());
-    r
+use crate::explore::{explore, Judge};
+use crate::scen::Entry;
+
+pub fn judge(w: &Worker, scen: &Scenario, ex: &Exec) -> Judgement {
+    let exp = model::expect(scen);
+    let v = judge_exit0_tree(w, scen, ex, &exp, Level::Meta);
+    simple_judge(v, ex, exit0(ex))
+}
+
+fn one(name: &str, src: Entry, prior: Option<Entry>, d: &str, flags: &[&str]) -> Scenario {
+    let mut tree = vec![src];
+    if let Some(p) = prior {
+        tree.push(p);
+    }
+    let mut args: Vec<&str> = vec!["--driver", d, "-w", "2", "--block-size", "4"];
+    args.extend_from_slice(flags);
+    args.extend_from_slice(&["f", "g"]);
+    Scenario::new(name, tree, &args)
+}
+
+pub fn mode_scenarios(quick: bool) -> Vec<Scenario> {
+    let mut v = vec![];
+    for d in drivers() {
+        for own in [false, true] {
+            for m in 0..0o10000u32 {
+                if quick && !own && m % 8 != 5 && m & 0o7000 == 0 {
+                    // quick: without --ownership the plain rwx combinations are thinned out (all special-bit modes kept)
+                    continue;
+                }
+                let src = Entry::file("f", "0123456789").mode(m).mtime(1_300_000_000, 123_456_789).owner(1000, 1000);
+                let flags: Vec<&str> = if own { vec!["--ownership"] } else { vec![] };
+                v.push(one(&format!("mode-{:04o}-{}-{}", m, d, if own { "own" } else { "noown" }), src, None, d, &flags));
+            }
+        }
+    }
+    v
+}
+
+pub fn other_scenarios() -> Vec<Scenario> {
+    let mut v = vec![];
+    let mtimes: Vec<(i64, u32)> = vec![(0, 0), (0, 1), (978_307_200, 123_456_789), (1_500_000_000, 999_999_999), (4_102_444_800, 5), (-1, 0), (-86_400, 500_000_000)];
+    let prior = || Entry::file("g", "previous destination content, longer").mode(0o604).mtime(1_100_000_000, 77).xattr("user.old", "stale").owner(7, 8);
+    for d in drivers() {
+        for (i, mt) in mtimes.iter().enumerate() {
+            for nt in [false, true] {
+                for ow in [false, true] {
+                    let src = Entry::file("f", "0123456789ab").mode(0o640).mtime(mt.0, mt.1);
+                    let flags: Vec<&str> = if nt { vec!["--no-timestamps"] } else { vec![] };
+                    v.push(one(&format!("mtime-{}-{}-{}-{}", i, if nt { "nots" } else { "ts" }, if ow { "over" } else { "fresh" }, d), src, if ow { Some(prior()) } else { None }, d, &flags));
+                }
+            }
+        }
+        let big = "v".repeat(2000);
+        let xsets: Vec<Vec<(&str, &str)>> = vec![vec![], vec![("user.a", "1")], vec![("user.a", "1"), ("user.b", "")], vec![("user.big", &big)], vec![("user.bin", "\\x00\\x01\\xff")]];
+        for (i, xs) in xsets.iter().enumerate() {
+            for ow in [false, true] {
+                let mut src = Entry::file("f", "0123456789ab").mode(0o644);
+                for (k, val) in xs {
+                    src = src.xattr(k, val);
+                }
+                v.push(one(&format!("xattr-{}-{}-{}", i, if ow { "over" } else { "fresh" }, d), src, if ow { Some(prior()) } else { None }, d, &[]));
+            }
+        }
+        for (u, g) in [(0u32, 0u32), (1000, 1000), (1000, 0), (65534, 65534)] {
+            for m in [0o644u32, 0o4755, 0o2755, 0o6755, 0o1777] {
+                for ow in [false, true] {
+                    let src = Entry::file("f", "0123456789ab").mode(m).owner(u, g);
+                    v.push(one(&format!("owner-{}-{}-{:o}-{}-{}", u, g, m, if ow { "over" } else { "fresh" }, d), src, if ow { Some(prior()) } else { None }, d, &["--ownership"]));
+                }
+            }
+        }
+        // full product of the three flags on a reduced domain
+        for np in [false, true] {
+            for nt in [false, true] {
+                for own in [false, true] {
+                    for ow in [false, true] {
+                        for m in [0o600u32, 0o6751, 0o444] {
+                            for um in [0o022u32, 0o077] {
+                                let src = Entry::file("f", "0123456789ab").mode(m).mtime(1_234_567_890, 987_654_321).owner(1000, 100).xattr("user.k", "v");
+                                let mut flags: Vec<&str> = vec![];
+                                if np {
+                                    flags.push("--no-perms");
+                                }
+                                if nt {
+                                    flags.push("--no-timestamps");
+                                }
+                                if own {
+                                    flags.push("--ownership");
+                                }
+                                let mut s = one(&format!("flags-{}{}{}-{}-{:o}-u{:o}-{}", np as u8, nt as u8, own as u8, if ow { "over" } else { "fresh" }, m, um, d), src, if ow { Some(prior()) } else { None }, d, &flags);
+                                s.umask = um;
+                                v.push(s);
+                            }
+                        }
+                    }
+                }
+            }
+        }
+    }
+    v
+}
+
+pub fn run(ctx: &Ctx) -> Report {
+    let mut rep = Report::new(
+        "model_checking",
+        "all 4096 permission modes x both drivers x {-, --ownership}; mtimes {epoch, 1 ns, 2001.123456789, .999999999, 2100, before 1970} x {-, --no-timestamps} x fresh/overwritten; xattr sets; uid:gid pairs x set-id/sticky modes with --ownership; the full product of --no-perms/--no-timestamps/--ownership on a reduced domain x umasks; multi-block files under the parblock schedule search (the last block may finish on any worker); oracle: exit 0 => mode (07777), mtime to the nanosecond, user xattrs, owner equal to the source's, or default/previous mode and a current mtime when the respective transfer is disabled; non-trivial = exited 0, per distinct (scenario, trace)",
+    );
+    let j: Judge = &judge;
+    let ms = mode_scenarios(ctx.quick());
+    let n = ms.len();
+    let st = scen_batch(ctx, ms, &[Policy::P0], j);
+    rep.part("all modes x drivers x ownership", st, serde_json::json!({"scenarios": n}));
+    let os = other_scenarios();
+    let n = os.len();
+    let st = scen_batch(ctx, os, &[Policy::P0, Policy::P1], j);
+    rep.part("mtimes, xattrs, owners, flag product", st, serde_json::json!({"scenarios": n}));
+    // schedule search on multi-block files: metadata must survive any completion order of the blocks
+    let cj: Judge = &c06::judge;
+    for (name, jobs) in sets::schedule_jobs(ctx.quick(), &|s| s).into_iter().filter(|(n, _)| n.starts_with("S2") || n.starts_with("S3") || n.starts_with("tiny")) {
+        let st = explore(&ctx.pool, jobs, cj);
+        rep.part(&format!("schedule search: {}", name), st, serde_json::json!({"policies": ["P0", "P1"]}));
+    }
+    rep.assumptions = vec!["run as root (ownership can be set); ext4 sandbox with user xattrs".into()];
+    rep
 }
